@@ -13,6 +13,7 @@ Scanners return the unconsumed rest (`input = consumed ++ rest`).
 -/
 import JsonV.Model.Basic
 import JsonV.Model.Utf8
+import JsonV.Model.Quote
 
 namespace JsonV.Spec.ValidJson
 open JsonV JsonV.Model
@@ -24,6 +25,9 @@ structure Opt where
   noDup : Bool := true
   /-- containers may be nested at most this deep (jsontext: 10000). -/
   maxDepth : Nat := 10000
+  /-- what member names are compared by: maps the spelling of a name (a string literal, quotes included) to its
+  meaning.  Default: the text recovered by `AppendUnquote` (slice C11's model, `Model/Quote.lean`). -/
+  key : Bytes → Bytes := fun lit => (JsonV.Model.Quote.appendUnquote lit).1
 
 /-! ### numbers -/
 
@@ -150,42 +154,6 @@ def strBody (strict : Bool) : Bytes → Option Bytes
 termination_by s => s.length
 decreasing_by all_goals (simp_wf; try omega)
 
-/-- The meaning of a string literal (quotes included) as a list of code points, used only to compare
-member names: escapes are resolved, surrogate pairs combined, anything ill-formed means U+FFFD
-(one per offending byte / unpaired surrogate) as in Go.  Total; junk for junk. -/
-def nameKeyAux : Nat → Bytes → List Nat
-  | 0, _ => []
-  | _, [] => []
-  | n+1, c :: r =>
-    if c = 0x22 then nameKeyAux n r
-    else if c = 0x5c then
-      match r with
-      | [] => []
-      | e :: r1 =>
-        if e = 0x75 then
-          match r1 with
-          | a :: b :: c2 :: d :: r2 =>
-            let v := (hex4 a b c2 d).getD Utf8.runeError
-            if Utf8.isHighSurrogate v then
-              match r2 with
-              | bs :: u :: a' :: b' :: c' :: d' :: r3 =>
-                let v2 := (hex4 a' b' c' d').getD 0
-                if bs = 0x5c ∧ u = 0x75 ∧ Utf8.isLowSurrogate v2 then Utf8.utf16DecodeRune v v2 :: nameKeyAux n r3
-                else Utf8.runeError :: nameKeyAux n r2
-              | _ => Utf8.runeError :: nameKeyAux n r2
-            else if Utf8.isLowSurrogate v then Utf8.runeError :: nameKeyAux n r2
-            else v :: nameKeyAux n r2
-          | _ => []
-        else
-          let ch : Nat := if e = 0x62 then 8 else if e = 0x66 then 12 else if e = 0x6e then 10
-            else if e = 0x72 then 13 else if e = 0x74 then 9 else e.toNat
-          ch :: nameKeyAux n r1
-    else
-      let (rune, size) := Utf8.decodeRune (c :: r)
-      rune :: nameKeyAux n ((c :: r).drop size)
-
-def nameKey (lit : Bytes) : List Nat := nameKeyAux lit.length lit
-
 /-! ### values -/
 
 /-- literal tail: `w` must be a prefix of `s`. -/
@@ -197,7 +165,7 @@ inductive Mode where
   /-- inside `[`: value *( "," value ) "]" -/
   | elems
   /-- inside `{`: string ":" value *( "," string ":" value ) "}", `seen` = keys of the names so far -/
-  | members (seen : List (List Nat))
+  | members (seen : List Bytes)
 
 def Mode.tag : Mode → Nat
   | .value => 0
@@ -241,7 +209,7 @@ def parse (o : Opt) : Mode → Nat → Bytes → Option Bytes
       match strBody o.strict r0 with
       | some (c :: r1) =>
         if c = 0x3a ∧ r1.length < r0.length then
-          let k := nameKey ((q :: r0).take (r0.length - r1.length))
+          let k := o.key ((q :: r0).take (r0.length - r1.length))
           if o.noDup && seen.contains k then none
           else
             match parse o .value d r1 with
